@@ -1,0 +1,19 @@
+//go:build verif
+
+package keeper
+
+// C17, second layer: the parameter / store accessors with logic of their own, verified against the raw store leaves
+// (/verif/specs/c17/60_fmstore.spec), and the block-sequence lemma over the contracts of EndBlock, BeginBlock, CalculateBaseFee.
+
+/*@
+func (Keeper).GetBaseFeeV1
+    ensures absent: len(fm_basefee_v1) == 0 ==> result == nil
+    ensures present: len(fm_basefee_v1) != 0 ==> result != nil && fresh(result) && *result == be_nat(fm_basefee_v1)
+
+func (Keeper).GetBaseFee
+    ensures disabled: fm_params.NoBaseFee ==> result == nil
+    ensures stored: !fm_params.NoBaseFee && fm_params.BaseFee != 0 ==> result != nil && *result == fm_params.BaseFee
+    // a stored base fee of 0 must read as 0 (nil is turned into 0 by the EVM keeper's getBaseFee)
+    ensures stored_zero: !fm_params.NoBaseFee && fm_params.BaseFee == 0 ==> result == nil || *result == 0
+
+@*/
